@@ -190,3 +190,73 @@ Proof.
   destruct (cur m3 p) as [[[[a len] i] s']|]; [|discriminate].
   rewrite C3 in R. simpl in R. rewrite andb_false_r in R. discriminate.
 Qed.
+
+(* ---------------------------------------------------------------- Stop *)
+Lemma forallb_false_ex : forall A (f : A -> bool) l, forallb f l = false -> exists x, In x l /\ f x = false.
+Proof.
+  induction l as [|a l IH]; simpl; intros H; [discriminate|].
+  destruct (f a) eqn:E; simpl in H; [destruct (IH H) as (x & A1 & A2); exists x; auto | exists a; auto].
+Qed.
+
+(* Stop closes every subscription that is in mux.subm and leaves the mux empty and stopped *)
+Theorem mux_stop_closes_all : forall st st', mreachable st -> mstep st MStopEnd = Some st' ->
+  stopped st' = true /\ (forall t, subm st' t = None) /\
+  (forall t s, In s (slice_of st (subm st t)) -> sstat st' s = UClosed).
+Proof.
+  intros st st' R H. destruct (mreachable_inv _ R) as [I _].
+  unfold mstep in H. destruct (mpanic st); [discriminate|].
+  destruct (wlock st && all_closed st) eqn:G; [|discriminate]. inversion H; subst; simpl. mbools.
+  repeat split; auto. intros t s Hin.
+  destruct (subm st t) as [x|] eqn:E; [|destruct Hin].
+  pose proof (m_types _ I _ _ E) as Ht. unfold all_closed in H1.
+  rewrite forallb_forall in H1. specialize (H1 _ Ht). rewrite E in H1. rewrite forallb_forall in H1.
+  apply sst_eqb_eq. apply H1. exact Hin.
+Qed.
+
+Theorem mux_stopped_no_subscribers : forall st, mreachable st -> stopped st = true -> forall t, subm st t = None.
+Proof. intros st R S. destruct (mreachable_inv _ R) as [I _]. apply (m_stopped _ I S). Qed.
+
+(* ---------------------------------------------------------------- progress *)
+(* a Post or a Stop is under way *)
+Definition mbusy (st : mstate) : Prop :=
+  (exists p, match ppcs st p with PCalled | PIter _ _ _ => True | _ => False end) \/ wlock st = true.
+
+(* no stuck state (readers are assumed willing: MDeliverSent has no reader-side guard): whenever a Post or
+   a Stop is under way, one of their own next synchronisation points is enabled *)
+Theorem mux_no_stuck_state : forall st, mreachable st -> mpanic st = false -> mbusy st ->
+  exists l, minternal l = true /\ mstep st l <> None.
+Proof.
+  intros st R Hnp Bz. destruct (mreachable_inv _ R) as [I _].
+  destruct (wlock st) eqn:W.
+  - (* Stop holds the lock *)
+    destruct (all_closed st) eqn:AC.
+    + exists MStopEnd. split; auto. unfold mstep. rewrite Hnp, W, AC. simpl. discriminate.
+    + unfold all_closed in AC. apply forallb_false_ex in AC. destruct AC as (t & Ht & AC).
+      apply forallb_false_ex in AC. destruct AC as (s & Hs & AC).
+      destruct (subm st t) as [[a len]|] eqn:E; simpl in Hs; [|destruct Hs].
+      destruct (m_subm _ I _ _ _ E) as (A & _ & _).
+      pose proof (m_members _ I a s A (In_firstn_in _ _ _ Hs)) as Nn.
+      destruct (sstat st s) eqn:S; try congruence; try discriminate.
+      * exists (MClosing s). split; auto. unfold mstep. rewrite Hnp, S. simpl. discriminate.
+      * exists (MPostcClose s). split; auto. unfold mstep. rewrite Hnp, S. simpl. discriminate.
+  - destruct Bz as [[p Bp]|Bw]; [|congruence].
+    destruct (ppcs st p) as [| |a len i| |] eqn:P; try tauto.
+    + destruct (stopped st) eqn:S.
+      * exists (MPostStopped p). split; auto. unfold mstep. rewrite Hnp, P, S, W. simpl. discriminate.
+      * exists (MPostSnap p). split; auto. unfold mstep. rewrite Hnp, P, S, W. simpl.
+        destruct (match subm st (ptyp st p) with Some x => x | None => (0, 0) end). discriminate.
+    + destruct (Nat.ltb i len) eqn:L; mbools.
+      * pose proof (m_iterlen _ I _ _ _ _ P) as Ll.
+        destruct (nth_error (heap st a) i) as [s|] eqn:N; [|apply nth_error_None in N; lia].
+        assert (C : cur st p = Some (a, len, i, s)).
+        { unfold cur. rewrite P, (proj2 (Nat.ltb_lt _ _) L), N. reflexivity. }
+        destruct (m_iter _ I _ _ _ _ P) as (_ & Fs & _ & _).
+        assert (Sn : In s (snap st p)).
+        { rewrite <- Fs. eapply nth_error_In. rewrite nth_error_firstn_lt; eauto. }
+        pose proof (m_snap _ I _ _ Sn) as Nn.
+        destruct (sstat st s) eqn:S; try congruence.
+        -- exists (MDeliverSent p s). split; auto. unfold mstep. rewrite Hnp, C, S, Nat.eqb_refl. discriminate.
+        -- exists (MDeliverSent p s). split; auto. unfold mstep. rewrite Hnp, C, S, Nat.eqb_refl. discriminate.
+        -- exists (MDeliverClosed p s). split; auto. unfold mstep. rewrite Hnp, C, S, Nat.eqb_refl. discriminate.
+      * exists (MPostRet p). split; auto. unfold mstep. rewrite Hnp, P, (proj2 (Nat.leb_le _ _) L). discriminate.
+Qed.
